@@ -55,8 +55,10 @@ BetaFamily == IF BetaSel = "zero" THEN {[j \in Cmp |-> 0]}
               ELSE IF BetaSel = "equal" THEN {[j \in Cmp |-> b] : b \in 0..2}
               ELSE [Cmp -> 0..2]
 
-Weight(uu, dd) == SumOver([i \in 0..(N - 1) |-> SumOver(uu[i], Cmp) * (3 * i + 1)], 0..(N - 1))
-                  + SumOver([iv \in FreeIv |-> SumOver(dd[iv], Cmp) * (7 * iv[1] + 5 * iv[2])], FreeIv)
+\* mixing coefficients so that the slices of the initial states have about equal size
+Coef(k) == (k * k * 37 + k * 101 + 13) % 997
+Weight(uu, dd) == SumOver([i \in 0..(N - 1) |-> SumOver([j \in Cmp |-> uu[i][j] * Coef(10 * i + j)], Cmp)], 0..(N - 1))
+                  + SumOver([iv \in FreeIv |-> SumOver([j \in Cmp |-> dd[iv][j] * Coef(100 + 30 * iv[1] + 5 * iv[2] + j)], Cmp)], FreeIv)
 
 Blank == /\ S = <<>> /\ t = 0 /\ opt = <<>> /\ astart = <<>> /\ starts = <<>> /\ pend = <<>>
          /\ bi = 0 /\ coll = {} /\ pts = {} /\ evlog = <<>>
@@ -66,7 +68,7 @@ Init ==
     /\ u \in [0..(N - 1) -> [Cmp -> 0..V]]
     /\ d \in [FreeIv -> [Cmp -> 0..V]]
     /\ pen \in [ca : CAs, cb : BetaFamily, pa : PAs, pb : {[j \in Cmp |-> b] : b \in PBs}]
-    /\ (Weight(u, d) + pen.ca + 3 * pen.pa) % NSlices = Slice
+    /\ (Weight(u, d) + 331 * pen.ca + 577 * pen.pa + SumOver([j \in Cmp |-> pen.cb[j] * Coef(900 + j)], Cmp)) % NSlices = Slice
 
 Start ==
     /\ pc = "start"
